@@ -30,6 +30,7 @@ bool ops_image(Ctx& c, const json& s, int idx, bool& handled) {
 		BitmapFile f = b; f.InvertScanLines(); if (f.imageHeader.height != -b.imageHeader.height) return bad("flip does not negate the height"); if (bmp_bytes(f) != flip) { Proto::mismatch(site + "/flip", "bytes", where(Scen::hexdiff(bmp_bytes(f), flip))); return false; }
 		f.InvertScanLines(); if (!(f == b)) { Proto::mismatch(site + "/flip", "twice-is-not-identity", where("")); return false; } return true; }
 	if (op == "bmp_factory") { BitmapFile b; if (throws([&] { b = BitmapFile::CreateIndexed(s["bc"].get<uint16_t>(), s["w"].get<uint32_t>(), s["h"].get<int32_t>()); })) { Proto::mismatch(site, "refused-should-accept", where("")); return false; }
+		if (throws([&] { b.Validate(); })) { Proto::mismatch(site, "field", where("Validate() refuses a factory-made bitmap")); return false; }
 		auto out = bmp_bytes(b), want = raw(s["image"]); if (out != want) { Proto::mismatch(site, "bytes", where(Scen::hexdiff(out, want))); return false; } BitmapFile b2; if (throws([&] { b2 = bmp_from(out); }) || !(b2 == b)) { Proto::mismatch(site, "round-trip-not-equal", where("")); return false; } return true; }
 	if (op == "tileset") { auto asBmp = raw(s["bmp"]), custom = raw(s["custom"]), top = raw(s["top"]);
 		for (int which = 0; which < 2; ++which) { const auto& src = which ? custom : asBmp; const std::string sub = which ? "/from-custom" : "/from-bmp"; BitmapFile b; Stream::MemoryReader r(src.data(), src.size());
@@ -51,6 +52,8 @@ bool ops_image(Ctx& c, const json& s, int idx, bool& handled) {
 		auto before = art_bytes(a); if (before != canon) { Proto::mismatch(site, "bytes", where(Scen::hexdiff(before, canon))); return false; }
 		auto again = art_bytes(a); if (again != before) { Proto::mismatch(site, "write-altered-the-object", where("")); return false; }
 		ArtFile a2; Stream::MemoryReader r2(before.data(), before.size()); if (throws([&] { a2 = ArtFile::Read(r2); }) || art_bytes(a2) != before) { Proto::mismatch(site, "not-byte-stable", where("")); return false; } return true; }
+	if (op == "prt_read") { auto in = raw(s["input"]); Stream::MemoryReader r(in.data(), in.size()); bool refused = throws([&] { ArtFile::Read(r); }); bool want = s["expect"] == "refuse";
+		if (refused != want) { Proto::mismatch(site, refused ? "refused-should-accept" : "accepted-should-refuse", where("")); return false; } return true; }
 	if (op == "prt_write") { ArtFile a = art_build(s["value"]); std::vector<unsigned char> out; bool refused = throws([&] { out = art_bytes(a); }); bool want = s["expect"] == "refuse";
 		if (refused != want) { Proto::mismatch(site, refused ? "refused-should-accept" : "accepted-should-refuse", where("")); return false; } if (!refused && out != raw(s["canon"])) { Proto::mismatch(site, "bytes", where("")); return false; } return true; }
 	// ---- C11: a (truncated / corrupted) bitmap, tileset or PRT file: an ordinary error, or an object that is safe to use ----------
@@ -103,6 +106,8 @@ bool ops_image(Ctx& c, const json& s, int idx, bool& handled) {
 		auto out = bmp_bytes(b), want = raw(s["canon"]); if (out != want) { Proto::mismatch(site, "bytes", where(Scen::hexdiff(out, want))); return false; }
 		BitmapFile b2; if (throws([&] { b2 = bmp_from(out); })) { Proto::mismatch(site, "reread-refused", where("")); return false; }
 		if (b2.imageHeader.width != b.imageHeader.width || b2.imageHeader.height != b.imageHeader.height || b2.imageHeader.bitCount != b.imageHeader.bitCount || b2.palette != b.palette) { Proto::mismatch(site, "round-trip-not-equal", where("")); return false; }
+		// (the pixel rows handed in may carry non-zero padding, which the writer zeroes: the headers and the palette must be equal, the pixels are compared through the bytes above)
+		if (!(b2.bmpHeader == b.bmpHeader && b2.imageHeader == b.imageHeader)) { Proto::mismatch(site, "round-trip-not-equal", where("the object read back differs from the factory-made one (file header size " + std::to_string(b.bmpHeader.size) + " vs " + std::to_string(b2.bmpHeader.size) + ")")); return false; }
 		if (throws([&] { b.Validate(); })) { Proto::mismatch(site, "field", where("Validate() refuses a factory-made bitmap")); return false; }
 		return true; }
 	OPS_EPILOGUE }
